@@ -14,6 +14,8 @@ CLAIMED = {
  "C06": ("DESIGN §6 C06", "the caller's cancellation is an environment action released at a scheduler-chosen decision (before deploy, during deploy, waiting for input, running, finishing); plugins honour / ignore / lack the cancel signal, closure timeouts 0/10/200/5000 ms; oracle: Execute returns within 5 s + closure timeouts + 1 s of simulated time in the fair suffix, every plugin executing at cancellation is signalled or shut down and its deployment closed before Execute returns, and a returned output is backed by values genuinely produced in the run"),
  "C14": ("DESIGN §6 C14", "one Prepare then 2-4 Execute calls by client goroutines, sequential, overlapped and mixed, with different inputs, some cancelled; oracle: every non-cancelled run returns its own reference result and every plugin input equals the evaluation over that run's own data (each run carries its own tag and number)"),
  "C15": ("DESIGN §6 C15", "workflows with !wait-optional, !soft-optional, !oneof and !ordisabled in step inputs, wait_for and outputs (nested in lists/maps), sources succeeding / failing / disabled / never finishing, under adversarial completion orders; oracle: reference-model evaluation of the tags (presence, value, discriminator), a wait-optional consumer starts only after its source was produced if it is produced at all, a soft-optional source never delays its consumer"),
+ "C13": ("DESIGN §6 C13", "a foreach step over 0-12 (sometimes 60) items with parallelism 1..n+2 (literal, expression, default), per-item outcome and duration so items finish out of order and some fail or end in a declared non-success output; oracle: item runs in progress (open deployments of the body) never exceed parallelism, the body runs once per item with that item, and the reported success list / failure report equals the reference model's (order, length, exact failing indexes, data of the others)"),
+ "C19": ("DESIGN §6 C19", "valid and invalid input documents (missing required, wrong type, unknown key, bad nested object / list item, string-encoded numbers, omitted defaults) for workflows whose steps and outputs read many input fields; oracle: invalid => Execute returns an error, zero run deployments, no engine goroutine; valid => not refused, and every plugin input and the output equal the reference normalisation (typed, defaults filled); thin simulation content (deployment counter, order independence), claimed at exploration level"),
 }
 NA = {
  "C11": "pure totality claim over byte strings: no schedule, clock, fault or interleaving in it (input fuzzing is a different technique); see DESIGN §7",
